@@ -94,7 +94,9 @@ class BatchNorm(Operation):
             if (
                 self.gamma is not None
             ):  # backprop through optional affine transformation
-                gamma = self.gamma.data
+                # read the recorded operand: `self.variables` follows in-place
+                # updates of the public tensor, a reference kept on the side does not
+                gamma = self.variables[1].data
                 grad_ *= gamma.reshape(keepdims_shape)
             return grad_
 
